@@ -401,15 +401,42 @@ registry! {
     c14_seg_record_40_44, "C14", experimental, 160, plain, 3000 => c14::segment_damage(40, 44); // record-area bytes 40..44: one byte XOR any non-zero mask
     c14_seg_record_44_48, "C14", experimental, 160, plain, 3000 => c14::segment_damage(44, 48); // record-area bytes 44..48: one byte XOR any non-zero mask
     c14_seg_record_115_119, "C14", experimental, 160, plain, 3000 => c14::segment_damage(115, 119); // record-area bytes 115..119: one byte XOR any non-zero mask
-    c19_ring_l0_lookup, "C19", experimental, 10, ring, 1800 => c19::ring(0, 0); // layout 0 (3 members x 2 virtual nodes, sorted positions concrete), key position = any u64, rf 1..=4: lookup
-    c19_ring_l0_gossip, "C19", experimental, 10, ring, 1800 => c19::ring(0, 1); // layout 0 (3 members x 2 virtual nodes, sorted positions concrete), key position = any u64, rf 1..=4: gossip
-    c19_ring_l0_removal, "C19", experimental, 10, ring, 1800 => c19::ring(0, 2); // layout 0 (3 members x 2 virtual nodes, sorted positions concrete), key position = any u64, rf 1..=4: removal
-    c19_ring_l1_lookup, "C19", experimental, 10, ring, 1800 => c19::ring(1, 0); // layout 1 (3 members x 2 virtual nodes, sorted positions concrete), key position = any u64, rf 1..=4: lookup
-    c19_ring_l1_gossip, "C19", experimental, 10, ring, 1800 => c19::ring(1, 1); // layout 1 (3 members x 2 virtual nodes, sorted positions concrete), key position = any u64, rf 1..=4: gossip
-    c19_ring_l1_removal, "C19", experimental, 10, ring, 1800 => c19::ring(1, 2); // layout 1 (3 members x 2 virtual nodes, sorted positions concrete), key position = any u64, rf 1..=4: removal
-    c19_ring_l2_lookup, "C19", experimental, 10, ring, 1800 => c19::ring(2, 0); // layout 2 (3 members x 2 virtual nodes, sorted positions concrete), key position = any u64, rf 1..=4: lookup
-    c19_ring_l2_gossip, "C19", experimental, 10, ring, 1800 => c19::ring(2, 1); // layout 2 (3 members x 2 virtual nodes, sorted positions concrete), key position = any u64, rf 1..=4: gossip
-    c19_ring_l2_removal, "C19", experimental, 10, ring, 1800 => c19::ring(2, 2); // layout 2 (3 members x 2 virtual nodes, sorted positions concrete), key position = any u64, rf 1..=4: removal
+    c19_ring_l0_lookup_rf1, "C19", experimental, 10, ring, 900 => c19::ring(0, 0, 1); // layout 0 (3 members x 2 virtual nodes, sorted positions concrete), key position = any u64, rf = 1: lookup
+    c19_ring_l0_lookup_rf2, "C19", experimental, 10, ring, 900 => c19::ring(0, 0, 2); // layout 0 (3 members x 2 virtual nodes, sorted positions concrete), key position = any u64, rf = 2: lookup
+    c19_ring_l0_lookup_rf3, "C19", experimental, 10, ring, 900 => c19::ring(0, 0, 3); // layout 0 (3 members x 2 virtual nodes, sorted positions concrete), key position = any u64, rf = 3: lookup
+    c19_ring_l0_lookup_rf4, "C19", experimental, 10, ring, 900 => c19::ring(0, 0, 4); // layout 0 (3 members x 2 virtual nodes, sorted positions concrete), key position = any u64, rf = 4: lookup
+    c19_ring_l0_gossip_rf1, "C19", experimental, 10, ring, 900 => c19::ring(0, 1, 1); // layout 0 (3 members x 2 virtual nodes, sorted positions concrete), key position = any u64, rf = 1: gossip
+    c19_ring_l0_gossip_rf2, "C19", experimental, 10, ring, 900 => c19::ring(0, 1, 2); // layout 0 (3 members x 2 virtual nodes, sorted positions concrete), key position = any u64, rf = 2: gossip
+    c19_ring_l0_gossip_rf3, "C19", experimental, 10, ring, 900 => c19::ring(0, 1, 3); // layout 0 (3 members x 2 virtual nodes, sorted positions concrete), key position = any u64, rf = 3: gossip
+    c19_ring_l0_gossip_rf4, "C19", experimental, 10, ring, 900 => c19::ring(0, 1, 4); // layout 0 (3 members x 2 virtual nodes, sorted positions concrete), key position = any u64, rf = 4: gossip
+    c19_ring_l0_removal_rf1, "C19", experimental, 10, ring, 900 => c19::ring(0, 2, 1); // layout 0 (3 members x 2 virtual nodes, sorted positions concrete), key position = any u64, rf = 1: removal
+    c19_ring_l0_removal_rf2, "C19", experimental, 10, ring, 900 => c19::ring(0, 2, 2); // layout 0 (3 members x 2 virtual nodes, sorted positions concrete), key position = any u64, rf = 2: removal
+    c19_ring_l0_removal_rf3, "C19", experimental, 10, ring, 900 => c19::ring(0, 2, 3); // layout 0 (3 members x 2 virtual nodes, sorted positions concrete), key position = any u64, rf = 3: removal
+    c19_ring_l0_removal_rf4, "C19", experimental, 10, ring, 900 => c19::ring(0, 2, 4); // layout 0 (3 members x 2 virtual nodes, sorted positions concrete), key position = any u64, rf = 4: removal
+    c19_ring_l1_lookup_rf1, "C19", experimental, 10, ring, 900 => c19::ring(1, 0, 1); // layout 1 (3 members x 2 virtual nodes, sorted positions concrete), key position = any u64, rf = 1: lookup
+    c19_ring_l1_lookup_rf2, "C19", experimental, 10, ring, 900 => c19::ring(1, 0, 2); // layout 1 (3 members x 2 virtual nodes, sorted positions concrete), key position = any u64, rf = 2: lookup
+    c19_ring_l1_lookup_rf3, "C19", experimental, 10, ring, 900 => c19::ring(1, 0, 3); // layout 1 (3 members x 2 virtual nodes, sorted positions concrete), key position = any u64, rf = 3: lookup
+    c19_ring_l1_lookup_rf4, "C19", experimental, 10, ring, 900 => c19::ring(1, 0, 4); // layout 1 (3 members x 2 virtual nodes, sorted positions concrete), key position = any u64, rf = 4: lookup
+    c19_ring_l1_gossip_rf1, "C19", experimental, 10, ring, 900 => c19::ring(1, 1, 1); // layout 1 (3 members x 2 virtual nodes, sorted positions concrete), key position = any u64, rf = 1: gossip
+    c19_ring_l1_gossip_rf2, "C19", experimental, 10, ring, 900 => c19::ring(1, 1, 2); // layout 1 (3 members x 2 virtual nodes, sorted positions concrete), key position = any u64, rf = 2: gossip
+    c19_ring_l1_gossip_rf3, "C19", experimental, 10, ring, 900 => c19::ring(1, 1, 3); // layout 1 (3 members x 2 virtual nodes, sorted positions concrete), key position = any u64, rf = 3: gossip
+    c19_ring_l1_gossip_rf4, "C19", experimental, 10, ring, 900 => c19::ring(1, 1, 4); // layout 1 (3 members x 2 virtual nodes, sorted positions concrete), key position = any u64, rf = 4: gossip
+    c19_ring_l1_removal_rf1, "C19", experimental, 10, ring, 900 => c19::ring(1, 2, 1); // layout 1 (3 members x 2 virtual nodes, sorted positions concrete), key position = any u64, rf = 1: removal
+    c19_ring_l1_removal_rf2, "C19", experimental, 10, ring, 900 => c19::ring(1, 2, 2); // layout 1 (3 members x 2 virtual nodes, sorted positions concrete), key position = any u64, rf = 2: removal
+    c19_ring_l1_removal_rf3, "C19", experimental, 10, ring, 900 => c19::ring(1, 2, 3); // layout 1 (3 members x 2 virtual nodes, sorted positions concrete), key position = any u64, rf = 3: removal
+    c19_ring_l1_removal_rf4, "C19", experimental, 10, ring, 900 => c19::ring(1, 2, 4); // layout 1 (3 members x 2 virtual nodes, sorted positions concrete), key position = any u64, rf = 4: removal
+    c19_ring_l2_lookup_rf1, "C19", experimental, 10, ring, 900 => c19::ring(2, 0, 1); // layout 2 (3 members x 2 virtual nodes, sorted positions concrete), key position = any u64, rf = 1: lookup
+    c19_ring_l2_lookup_rf2, "C19", experimental, 10, ring, 900 => c19::ring(2, 0, 2); // layout 2 (3 members x 2 virtual nodes, sorted positions concrete), key position = any u64, rf = 2: lookup
+    c19_ring_l2_lookup_rf3, "C19", experimental, 10, ring, 900 => c19::ring(2, 0, 3); // layout 2 (3 members x 2 virtual nodes, sorted positions concrete), key position = any u64, rf = 3: lookup
+    c19_ring_l2_lookup_rf4, "C19", experimental, 10, ring, 900 => c19::ring(2, 0, 4); // layout 2 (3 members x 2 virtual nodes, sorted positions concrete), key position = any u64, rf = 4: lookup
+    c19_ring_l2_gossip_rf1, "C19", experimental, 10, ring, 900 => c19::ring(2, 1, 1); // layout 2 (3 members x 2 virtual nodes, sorted positions concrete), key position = any u64, rf = 1: gossip
+    c19_ring_l2_gossip_rf2, "C19", experimental, 10, ring, 900 => c19::ring(2, 1, 2); // layout 2 (3 members x 2 virtual nodes, sorted positions concrete), key position = any u64, rf = 2: gossip
+    c19_ring_l2_gossip_rf3, "C19", experimental, 10, ring, 900 => c19::ring(2, 1, 3); // layout 2 (3 members x 2 virtual nodes, sorted positions concrete), key position = any u64, rf = 3: gossip
+    c19_ring_l2_gossip_rf4, "C19", experimental, 10, ring, 900 => c19::ring(2, 1, 4); // layout 2 (3 members x 2 virtual nodes, sorted positions concrete), key position = any u64, rf = 4: gossip
+    c19_ring_l2_removal_rf1, "C19", experimental, 10, ring, 900 => c19::ring(2, 2, 1); // layout 2 (3 members x 2 virtual nodes, sorted positions concrete), key position = any u64, rf = 1: removal
+    c19_ring_l2_removal_rf2, "C19", experimental, 10, ring, 900 => c19::ring(2, 2, 2); // layout 2 (3 members x 2 virtual nodes, sorted positions concrete), key position = any u64, rf = 2: removal
+    c19_ring_l2_removal_rf3, "C19", experimental, 10, ring, 900 => c19::ring(2, 2, 3); // layout 2 (3 members x 2 virtual nodes, sorted positions concrete), key position = any u64, rf = 3: removal
+    c19_ring_l2_removal_rf4, "C19", experimental, 10, ring, 900 => c19::ring(2, 2, 4); // layout 2 (3 members x 2 virtual nodes, sorted positions concrete), key position = any u64, rf = 4: removal
     c10_twin, "C10", quick, 8, plain, 300 => c10::twin();
     c10_decode_total_0, "C10", thorough, 8, plain, 600 => c10::decode_total::<0, 16>(); // arbitrary bytes with declared payload length 0
     c10_roundtrip_0, "C10", thorough, 8, plain, 600 => c10::roundtrip::<0, 16>(); // any stamp, any payload of 0 byte(s)
@@ -545,4 +572,10 @@ registry! {
     c16_gen_setex_3, "C16", experimental, 64, plain, 1200 => c16::diff(b"SETEX", &[A::S(1), A::S(1), A::S(1)]); // SETEX with 3 symbolic one-byte argument(s): no verdict in 20 min
     c16_gen_expire_2, "C16", experimental, 64, plain, 1200 => c16::diff(b"EXPIRE", &[A::S(1), A::S(1)]); // EXPIRE with 2 symbolic one-byte argument(s): no verdict in 20 min
     c16_gen_acl_1, "C16", experimental, 64, plain, 1200 => c16::diff(b"ACL", &[A::S(1)]); // ACL with 1 symbolic one-byte argument(s): no verdict in 20 min
+    c12_twin, "C12", experimental, 40, persist, 900 => c12::twin();
+    c12_persist_flush_1, "C12", experimental, 40, persist, 1800 => c12::persistence_flush(1); // StreamingPersistence::flush, 1 buffered update, every store operation Ok / Err / torn
+    c12_wbuf_flush_1, "C12", experimental, 40, persist, 1800 => c12::write_buffer_flush(1); // WriteBuffer::flush, 1 buffered update, the put Ok / Err / torn
+    c05_twin, "C05", experimental, 8, small, 600 => c05::twin();
+    c05_exec_int_incrby_get, "C05", experimental, 8, small, 1500 => c05::exec_equals_sequential(1, 1, 4); // k = one digit; MULTI INCRBY k n; GET k; EXEC vs sequential, n = any i64
+    c05_edges, "C05", experimental, 8, small, 1500 => c05::edges(); // nested MULTI, EXEC/DISCARD without MULTI, WATCH inside MULTI, UNWATCH
 }
